@@ -199,7 +199,9 @@ impl Request {
                 break;
             } else {
                 safe_assert(line.len() >= 2)?;
-                let line_without_crlf = &line[0..line.len() - 2];
+                let line_without_crlf = line
+                    .get(0..line.len() - 2)
+                    .to_error(RequestError::Request)?;
                 let mut line_parts = line_without_crlf.splitn(2, ':');
                 headers.add(
                     HeaderType::from(line_parts.next().to_error(RequestError::Request)?),
@@ -298,7 +300,9 @@ impl Request {
                 break;
             } else {
                 safe_assert(line.len() >= 2)?;
-                let line_without_crlf = &line[0..line.len() - 2];
+                let line_without_crlf = line
+                    .get(0..line.len() - 2)
+                    .to_error(RequestError::Request)?;
                 let mut line_parts = line_without_crlf.splitn(2, ':');
                 headers.add(
                     HeaderType::from(line_parts.next().to_error(RequestError::Request)?),
